@@ -1021,7 +1021,7 @@ def extrapolated_unit(an, cls, method, order, elem, dirs, hcols, k_est, ratio, w
     over the k_est largest steps;
     U_x = unit of order p + s*t over the k_est - t windows (head h_i, tail h_{i+t}) times sum |Richardson
     weights|, t = min(terms, k_est - 1).  hcols: list of step sequences (one per coordinate in dirs), each sorted
-    descending.  Returns (U, which, t, T, R) with U = T + R (truncation and rounding parts at the minimising
+    descending.  Returns (U, which, t, T, R, T_p(w h_max)) with U = T + R (truncation and rounding parts at the minimising
     window, both including the weight sums) or None."""
     s_doc, p_doc = documented_orders(cls, method, order)
     cols = [np.sort(np.asarray(c, dtype=float))[::-1] for c in hcols]
@@ -1038,8 +1038,12 @@ def extrapolated_unit(an, cls, method, order, elem, dirs, hcols, k_est, ratio, w
     # with t >= 1 every value the library can return is a Richardson combination of t+1 estimates: its error is
     # governed by U_x (which exceeds U_basic when the steps are not small against the radius of convergence, e.g.
     # high-degree polynomials sampled far out), so U_x is the unit; U_basic only when nothing is extrapolated
+    # truncation of the un-extrapolated rule at the largest step (amp = 1): the checks assert the extrapolated order
+    # only for asymptotic sequences, i.e. when this is already small against the local scale of the derivative
+    tb = envelope_unit(an, elem, dirs, p_doc, hs[:1], w, dform, 1.0)
+    t_max = tb[1] if tb is not None else math.inf
     if ux is not None:
-        return ux[0], 'extrapolated', t, ux[1], ux[2]
+        return ux[0], 'extrapolated', t, ux[1], ux[2], t_max
     if ub is None:
         return None
-    return ub[0], 'basic', t, ub[1], ub[2]
+    return ub[0], 'basic', t, ub[1], ub[2], t_max
